@@ -36,6 +36,9 @@ var c28Lifetimes = []string{"5s", "90s", "5m"}
 var c28Advances = []int64{1, 4, 7, 31, 59, 62, 95, 130, 310}
 
 // Generate: phases of client operations separated by time advances.
+// KeepArg: written values stay unique under shrinking (every read and every eviction report is attributed to one write by its value).
+func (c28Engine) KeepArg(op simrun.Op, ai int) bool { return op.K == "add" && ai == 2 }
+
 func (c28Engine) Generate(seed uint64, tier string) *simrun.Case {
 	r := sim.NewRand(seed)
 	c := &simrun.Case{Prop: "C28", Engine: "cache-lin", Seed: seed, SchedSeed: sim.Mix(seed, 99), Knobs: map[string]int64{}}
@@ -132,6 +135,7 @@ type c28Rec struct {
 	current map[string]*c28Out // task id -> output being collected
 	reports map[int64]int      // value -> number of eviction reports
 	bg      int
+	advTick int64 // logical time at which the latest time advance began (0 = none yet)
 	start   time.Time
 	bad     []string
 	limit   int
@@ -242,11 +246,24 @@ func (r *c28Rec) onEvict(id int, key any, value any) {
 	// background sweeper: record as its own operation at this instant
 	r.bg++
 	ci := c28ClassIndex(id)
+	// The sweeper removed the entry under the cache lock some time BEFORE this callback (it reports after
+	// releasing the lock, and other tasks can run in between), but not before it woke, i.e. not before the
+	// latest time advance began: the operation spans [advance began, callback].
 	tk := sim.Tick()
+	if r.advTick > 0 {
+		tk = r.advTick
+	}
 	now := time.Since(r.start)
 	r.ops = append(r.ops, porcupine.Operation{ClientId: 60, Call: tk, Return: sim.Tick(),
 		Input:  c28In{Kind: "bgevict", Class: ci, Key: k, Val: v, T: now},
 		Output: c28Out{T2: now}})
+}
+
+func (r *c28Rec) markAdvance() {
+	tk := sim.Tick()
+	r.mu.Lock()
+	r.advTick = tk
+	r.mu.Unlock()
 }
 
 func c28ClassIndex(id int) int {
@@ -295,6 +312,7 @@ func c28Main(c *simrun.Case, rec *c28Rec) {
 	for _, op := range c.Ops {
 		if op.K == "advance" {
 			flush()
+			rec.markAdvance()
 			time.Sleep(time.Duration(op.Arg(0)) * time.Second)
 			continue
 		}
@@ -302,6 +320,7 @@ func c28Main(c *simrun.Case, rec *c28Rec) {
 	}
 	flush()
 	// final: let everything expire and be swept, then ask for the final accounting
+	rec.markAdvance()
 	time.Sleep(10 * time.Minute)
 	for ci := range c28Classes {
 		c28Do(1, simrun.Op{K: "final", A: []int64{int64(ci)}}, rec)
